@@ -147,6 +147,13 @@ where
             }
             job.concrete = serde_json::json!({"verify_ok": res.is_ok(), "expected": true});
             job.check("concrete verdict: honest proof accepted", res.is_ok(), format!("{:?}", res));
+            {
+                // the verifier's transcript is left in the prover's state (a later draw from it binds the opening)
+                let (mut fa, mut fb) = ([0u8; 32], [0u8; 32]);
+                pt.challenge_bytes(b"follow-up", &mut fa);
+                vt.challenge_bytes(b"follow-up", &mut fb);
+                job.check("after create / verify the two transcripts give the same follow-up challenge", fa == fb, String::new());
+            }
             let evs = events_in("verify");
             match evs.iter().rev().find(|e| e.kind == "peq") {
                 Some(e) => {
@@ -242,6 +249,11 @@ pub fn c10_cases(thorough: bool) -> Vec<IppCase> {
     v.push(IppCase { name: "honest_k3_ones_zeros".into(), k: 3, g_factors: "sym".into(), h_factors: "unit".into(), a_pat: "s1s0s".into(), b_pat: "0s1".into(), mode: "honest".into() });
     v.push(IppCase { name: "honest_k1_a_all_zero".into(), k: 1, g_factors: "sym".into(), h_factors: "sym".into(), a_pat: "0".into(), b_pat: "s".into(), mode: "honest".into() });
     v.push(IppCase { name: "honest_k2_b_all_zero".into(), k: 2, g_factors: "sym".into(), h_factors: "unit".into(), a_pat: "s".into(), b_pat: "0".into(), mode: "honest".into() });
+    // sparse left vectors on n = 8, 16: zero at i, i+n/4, i+n/2, i+3n/4 for some i (no cross term degenerates: b is dense)
+    v.push(IppCase { name: "honest_k3_unit_vector_a".into(), k: 3, g_factors: "sym".into(), h_factors: "sym".into(), a_pat: "s0000000".into(), b_pat: "s".into(), mode: "honest".into() });
+    v.push(IppCase { name: "honest_k3_a_every_fourth".into(), k: 3, g_factors: "sym".into(), h_factors: "unit".into(), a_pat: "s000".into(), b_pat: "s".into(), mode: "honest".into() });
+    v.push(IppCase { name: "honest_k4_a_odd_positions_b_every_fourth".into(), k: 4, g_factors: "unit".into(), h_factors: "sym".into(), a_pat: "0s".into(), b_pat: "sss0".into(), mode: "honest".into() });
+    v.push(IppCase { name: "honest_k3_unit_vector_b".into(), k: 3, g_factors: "sym".into(), h_factors: "sym".into(), a_pat: "s".into(), b_pat: "0000000s".into(), mode: "honest".into() });
     v.push(IppCase { name: "degenerate_k2_L_identity".into(), k: 2, g_factors: "sym".into(), h_factors: "sym".into(), a_pat: "00ss".into(), b_pat: "ss00".into(), mode: "degenerate".into() });
     v.push(IppCase { name: "degenerate_k1_R_identity".into(), k: 1, g_factors: "sym".into(), h_factors: "sym".into(), a_pat: "s0".into(), b_pat: "0s".into(), mode: "degenerate".into() });
     if thorough {
@@ -269,7 +281,7 @@ pub fn c13_literal_sets() -> Vec<[&'static str; 5]> {
     ]
 }
 
-pub fn job_c13<C: Base + 'static>(variant: &str, seed: u64, curve: &str) -> Job
+pub fn job_c13<C: Base + 'static>(variant: &str, seed: u64, curve: &str, torsion: Option<Vec<C>>) -> Job
 where
     C::ScalarField: Inner,
 {
@@ -281,8 +293,16 @@ where
     let pc = if variant.starts_with("default_bases") {
         PedersenGens::<SymA<C>>::default()
     } else {
-        PedersenGens { B: SymA::concrete(C::Group::rand(&mut rng).into_affine()), B_blinding: SymA::concrete(C::Group::rand(&mut rng).into_affine()) }
+        // same plain bases as the native twin (random / identity / with a small-order component), as named symbols
+        match crate::replay::c13_bases::<C>(variant, &mut rng, &torsion) {
+            Some(pcp) => PedersenGens { B: SymA::concrete(pcp.B), B_blinding: SymA::concrete(pcp.B_blinding) },
+            None => {
+                job.stats = stats();
+                return job;
+            }
+        }
     };
+    let rmul = |P: &C, s: &C::ScalarField| -> C::Group { crate::replay::ref_mul::<C>(P, s) };
     let (bB, bBb) = (pc.B.name_basis("B"), pc.B_blinding.name_basis("Bblind"));
     let mut vals = SymVals::<C::ScalarField>::new(seed);
     let lit = |s: &str| -> SymF<C::ScalarField> {
@@ -297,14 +317,16 @@ where
     } else {
         vec![[vals.fresh("v"), vals.fresh("r"), vals.fresh("v"), vals.fresh("r"), vals.fresh("k")]]
     };
+    let (b_is_identity, bb_is_identity) = (pc.B.p.is_zero(), pc.B_blinding.p.is_zero());
     let mk = |v: SymF<C::ScalarField>, r: SymF<C::ScalarField>| -> Lin {
         let (tv, tr) = (v.tid(), r.tid());
         arena::with(|a| {
             let mut m = BTreeMap::new();
-            if tv != a.lit0 {
+            // the identity point is no basis element: a multiple of it contributes nothing
+            if tv != a.lit0 && !b_is_identity {
                 m.insert(bB, tv);
             }
-            if tr != a.lit0 {
+            if tr != a.lit0 && !bb_is_identity {
                 m.insert(bBb, tr);
             }
             m
@@ -324,15 +346,24 @@ where
         let sum: SymP<C> = SymP::from(c1) + SymP::from(c2);
         let csum = pc.commit(v1 + v2, r1 + r2);
         items.extend(lin_eq_items(&format!("set{} commit(v1,r1)+commit(v2,r2)=commit(v1+v2,r1+r2)", si), &sum.lin(), &csum.lin()));
-        job.check(&format!("set{}: homomorphism holds on the shadow curve", si), sum.p == SymP::<C>::from(csum).p, String::new());
-        let refp: C::Group = pc.B.p * v1.v + pc.B_blinding.p * r1.v;
+        // bases with a small-order component have order 8l: sums of scalars wrap modulo l, so the additive and
+        // scaling laws hold only up to a small-order point there (a fact about the group, not about the code);
+        // for them only "commit = v*B + r*Bblind on canonical representatives" and "Prover::commit is the same
+        // function" are checked
+        let prime_order_bases = !variant.starts_with("torsion");
+        if prime_order_bases {
+            job.check(&format!("set{}: homomorphism holds on the shadow curve", si), sum.p == SymP::<C>::from(csum).p, String::new());
+        }
+        let refp: C::Group = rmul(&pc.B.p, &v1.v) + rmul(&pc.B_blinding.p, &r1.v);
         job.check(&format!("set{}: commit equals v*B + r*Bblind on the shadow curve (computed with plain scalar multiplication)", si), SymP::<C>::from(c1).p == refp, String::new());
-        let ref2: C::Group = pc.B.p * v2.v + pc.B_blinding.p * r2.v;
+        let ref2: C::Group = rmul(&pc.B.p, &v2.v) + rmul(&pc.B_blinding.p, &r2.v);
         job.check(&format!("set{}: second commitment equals v*B + r*Bblind on the shadow curve", si), SymP::<C>::from(c2).p == ref2, String::new());
         let scaled: SymP<C> = SymP::from(c1) * kk;
         let cscaled = pc.commit(kk * v1, kk * r1);
         items.extend(lin_eq_items(&format!("set{} k*commit(v,r)=commit(kv,kr)", si), &scaled.lin(), &cscaled.lin()));
-        job.check(&format!("set{}: scaling holds on the shadow curve", si), scaled.p == SymP::<C>::from(cscaled).p, String::new());
+        if prime_order_bases {
+            job.check(&format!("set{}: scaling holds on the shadow curve", si), scaled.p == SymP::<C>::from(cscaled).p, String::new());
+        }
     }
     let czero = pc.commit(SymF::zero(), SymF::zero());
     job.check("commit(0,0) is the identity", czero.p.is_zero() && czero.lin().is_empty(), String::new());
@@ -351,6 +382,7 @@ where
     let absorbed = evs.iter().any(|e| e.op == "append" && e.label == b"V" && e.data == vbytes);
     job.check("Prover::commit absorbs the full encoding of the returned commitment under label V", absorbed, String::new());
     job.check("Prover::commit equals PedersenGens::commit on the shadow curve", V.p == c1.p, String::new());
+    job.check("Prover::commit equals v*B + r*Bblind on the shadow curve (plain double-and-add)", SymP::<C>::from(V).p == rmul(&pc.B.p, &v1.v) + rmul(&pc.B_blinding.p, &r1.v), String::new());
     {
         let mut pt0 = Transcript::new(b"c13");
         let mut prover = Prover::new(&pc, &mut pt0);
@@ -365,7 +397,7 @@ where
         let (_Va, _) = prover.commit(v1, r1);
         let (Vb, _) = prover.commit(v_other, r1);
         items.extend(lin_eq_items("second Prover::commit with a repeated blinding", &Vb.lin(), &mk(v_other, r1)));
-        let refb: C::Group = pc.B.p * v_other.v + pc.B_blinding.p * r1.v;
+        let refb: C::Group = rmul(&pc.B.p, &v_other.v) + rmul(&pc.B_blinding.p, &r1.v);
         job.check("a second commitment with the same blinding and another value is its own commitment (shadow curve)", SymP::<C>::from(Vb).p == refb, String::new());
     }
     job.groups.push(identity_group("pedersen_laws", "I", "commit(v,r) = v*B + r*Bblind coefficient-wise for all v, r and any pair of bases; additive homomorphism; scaling; Prover::commit is the same function", items));
